@@ -13,7 +13,7 @@ def core_tree(rng, depth):
     G = gen_compose
     if depth <= 0 or rng.random() < 0.12:
         return rng.choice([G.N("a"), G.N("b"), G.K(1), G.K("s"), G.K(2.5), G.K(None), G.K(True)])
-    k = rng.choice(["bin", "bin", "bin", "un", "bool", "cmp", "if", "lam", "wal", "attr", "call", "call", "sub", "list", "tuple", "set"])
+    k = rng.choice(["bin", "bin", "bin", "un", "bool", "cmp", "if", "lam", "wal", "attr", "call", "call", "sub", "list", "tuple", "set", "dict", "comp", "comp"])
     star = lambda x: ast.Starred(value=x, ctx=G.L) if rng.random() < 0.2 else x
     r = lambda: core_tree(rng, depth - 1)
     if k == "bin":
@@ -42,6 +42,20 @@ def core_tree(rng, depth):
         return ast.Tuple(elts=[star(r()) for _ in range(rng.randint(0, 3))], ctx=G.L)
     if k == "set":
         return ast.Set(elts=[star(r()) for _ in range(rng.randint(1, 3))])
+    if k == "dict":
+        n = rng.randint(0, 3)
+        return ast.Dict(keys=[(None if rng.random() < 0.25 else r()) for _ in range(n)], values=[r() for _ in range(n)])
+    if k == "comp":
+        def tgt():
+            return G.S("i") if rng.random() < 0.6 else ast.Tuple(elts=[G.S("j"), G.S("k")], ctx=ast.Store())
+        gens = [ast.comprehension(target=tgt(), iter=r(), ifs=[r() for _ in range(rng.randint(0, 2))], is_async=0)
+                for _ in range(rng.randint(1, 2))]
+        kind = rng.choice(["list", "set", "dict"])
+        if kind == "list":
+            return ast.ListComp(elt=r(), generators=gens)
+        if kind == "set":
+            return ast.SetComp(elt=r(), generators=gens)
+        return ast.DictComp(key=r(), value=r(), generators=gens)
     s = r()
     while isinstance(s, (ast.Tuple, ast.Slice, ast.Starred)):
         s = r()
